@@ -306,3 +306,65 @@ pub fn check(case: &C10Case, st: &mut Stats) -> Verdict {
     }
     Ok(())
 }
+
+/// The transcoding relation on an arbitrary validly signed structure (used by the coverage-guided
+/// target `c10_transcode`): the same (JWT, disclosures, KB-JWT) triple must be judged alike, with
+/// equal claims, in Compact and in every JSON rendering, with and without a key-binding demand.
+pub fn check_structure(payload: &Value, disclosures: &[String], alg: crate::keys::Alg, kb: Option<String>, st: &mut Stats) -> Verdict {
+    let jwt = sut::sign_jwt(&json!({"alg": alg.name()}), payload, alg, KeyId::Primary);
+    let parts = Parts { jwt, disclosures: disclosures.to_vec(), kb };
+    let resolver = Resolver::Fixed(alg, KeyId::Primary);
+    let compact = match render_ex(&parts, Fmt::Compact, KbRender::Absent, &[]) {
+        Some(c) if split(&c, Fmt::Compact).ok().as_ref() == Some(&parts) => c,
+        _ => {
+            st.label("untranscodable");
+            return Ok(());
+        }
+    };
+    let shadow = [
+        ("header".to_string(), json!({"alg": "none", "disclosures": [b64e(br#"["salt", "injected", true]"#)], "kb_jwt": "e30.e30.AAAA", "payload": "e30"})),
+        ("signatures".to_string(), json!([{"protected": "e30", "signature": "AAAA"}])),
+    ];
+    let json_variants: Vec<(&str, Option<String>)> = vec![
+        ("kb_jwt absent / string", render_ex(&parts, Fmt::Json, KbRender::Absent, &[])),
+        ("kb_jwt null when absent", render_ex(&parts, Fmt::Json, KbRender::Null, &[])),
+        ("extra members shadowing the envelope", render_ex(&parts, Fmt::Json, KbRender::Absent, &shadow)),
+    ];
+    for (aud, nonce) in [(None, None), (Some("a"), Some("n"))] {
+        let vc = sut::verify_full(&compact, Fmt::Compact, &resolver, aud, nonce, None);
+        st.sub(1);
+        if let Out::Panic(p) = &vc {
+            return Err(Failure::new(panic_sig("SDJWTVerifier::new", p), format!("verifier panicked (Compact): {}\n  input: {}", p, sut::clip(&compact, 3000))));
+        }
+        for (jname, j) in &json_variants {
+            let j = match j {
+                Some(j) => j,
+                None => continue,
+            };
+            let vj = sut::verify_full(j, Fmt::Json, &resolver, aud, nonce, None);
+            st.sub(1);
+            if let Out::Panic(p) = &vj {
+                return Err(Failure::new(panic_sig("SDJWTVerifier::new", p), format!("verifier panicked (JSON): {}\n  input: {}", p, sut::clip(j, 3000))));
+            }
+            if !outcome_eq(&vc, &vj) {
+                return Err(Failure::new(
+                    "transcode:verifier-differs:structure",
+                    format!(
+                        "the same (JWT, disclosures, KB-JWT) triple is judged differently in the two serialisations [JSON variant: {}], verifier aud={:?} nonce={:?}\n  Compact: {} -> {}\n  JSON:    {} -> {}",
+                        jname,
+                        aud,
+                        nonce,
+                        sut::clip(&compact, 3000),
+                        vc.describe(),
+                        sut::clip(j, 3000),
+                        vj.describe()
+                    ),
+                ));
+            }
+        }
+        if vc.is_ok() {
+            st.nontrivial();
+        }
+    }
+    Ok(())
+}
